@@ -29,6 +29,7 @@
 (*        parsed/pastified --Update*/Reset--> online                       *)
 (*        parsed --Evaluate/Extend--> offline                              *)
 (*        parsed/offline --Reconfigure--> the same phase, another cfg      *)
+(*        parsed/offline --Reparse--> parsed, another formula              *)
 (*                                                                         *)
 (* Every action is given as a guard  CanX(m, ..)  and a function           *)
 (* XF(m, ..)  on object records, so that the same definitions serve the    *)
@@ -60,6 +61,11 @@ Full(m, s) == [v \in m.cfg.vars |-> IF v \in DOMAIN s THEN s[v] ELSE m.cur[v]]
 \* parse()
 CanParse(m) == m.phase = "new"
 ParseF(m, f) == [m EXCEPT !.phase = "parsed", !.phi = f, !.inst = f]
+
+\* spec.spec = <another text>, perhaps add_sub_spec(), and parse() again on an object that is not fed online: the object then
+\* monitors the new formula (the assertions of the earlier text stay behind in the library, the result is that of the last one)
+CanReparse(m) == m.phase \in {"parsed", "offline"}
+ReparseF(m, f) == [m EXCEPT !.phase = "parsed", !.phi = f, !.inst = f]
 
 \* pastify(): only specifications without unbounded future operators (others: RTAMTException)
 CanPastify(m) == m.phase = "parsed" /\ Pastifiable(m.phi)
@@ -143,7 +149,7 @@ CONSTANTS K,          \* number of objects side by side
           Gaps,       \* gaps between consecutive time-stamps
           MaxLen,     \* bound on samples per object
           Dev,        \* deviations switched on ({} = intended design)
-          Mode        \* "online" | "offline": which half of the API the configuration explores;
+          Mode        \* "online" | "offline": which half of the API the configuration explores ("offline_re": with Reparse);
                       \* "partial": online, and an update() may leave variables out
 
 VARIABLE ms
@@ -161,9 +167,11 @@ Update(i, s, g) == /\ OnlineMode /\ CanUpdate(ms[i]) /\ Len(ms[i].outOn) < MaxLe
                    /\ ms' = [ms EXCEPT ![i] = UpdateF(ms[i], s, NextStamp(ms[i], g), Dev)]
 Reset(i)      == OnlineMode /\ CanReset(ms[i]) /\ ms' = [ms EXCEPT ![i] = ResetF(ms[i], Dev)]
 Repastify(i)  == OnlineMode /\ CanRepastify(ms[i]) /\ ms[i].phase = "online" /\ ms' = [ms EXCEPT ![i] = RepastifyF(ms[i])]
-Extend(i, s, g) == /\ Mode = "offline" /\ CanEvaluate(ms[i]) /\ Len(ms[i].ts) < MaxLen
+OfflineMode == Mode \in {"offline", "offline_re"}
+Extend(i, s, g) == /\ OfflineMode /\ CanEvaluate(ms[i]) /\ Len(ms[i].ts) < MaxLen
                    /\ ms' = [ms EXCEPT ![i] = ExtendFD(ms[i], s, NextStamp(ms[i], g), Dev)]
-Reconfigure(i, c) == /\ Mode = "offline" /\ CanReconfigure(ms[i], c)
+Reparse(i, f) == Mode = "offline_re" /\ CanReparse(ms[i]) /\ f # ms[i].phi /\ ms' = [ms EXCEPT ![i] = ReparseF(ms[i], f)]
+Reconfigure(i, c) == /\ OfflineMode /\ CanReconfigure(ms[i], c)
                      /\ ms' = [ms EXCEPT ![i] = ReconfigureF(ms[i], c)]
 
 Next == \E i \in 1..K :
@@ -174,6 +182,7 @@ Next == \E i \in 1..K :
           \/ Reset(i)
           \/ Repastify(i)
           \/ \E c \in Configs : Reconfigure(i, c)
+          \/ \E f \in Formulas : Reparse(i, f)
 
 Spec == Init /\ [][Next]_vars
 
